@@ -14,6 +14,7 @@ for pid in sorted(PROPS):
     engs = ", ".join(f"{e.get('tag', e['name'])} ({e['quick']})" for e in PROPS[pid]['engines'])
     print(f"| {pid} | {cov.get('discharged','?')}/{cov.get('obligations','?')} | {engs} | {META[pid]['technique']} |")
 print()
+n_all = n_caught = n_conc = 0
 print("| seeded change | what it does | needs | caught by | concrete input |")
 print("|---|---|---|---|---|")
 for d in sorted(glob.glob('/verif/seeded/*/meta.json')):
@@ -25,5 +26,8 @@ for d in sorted(glob.glob('/verif/seeded/*/meta.json')):
     conc = "yes" if cr.get('with_concrete_input') else ("—" if not caught else "no (broken obligation only)")
     if m.get('moot_after_fix') and not caught:
         how = "not a violation any more (%s); `./check %s` rightly quiet" % (m['moot_after_fix']['fix'].split(' ')[0], m['property']); conc = "n/a"
+    n_all += 1; n_caught += 1 if caught else 0; n_conc += 1 if cr.get('with_concrete_input') else 0
     port = " (ported)" if m.get('patch_used_for_check') == 'patch.ported.diff' else ""
     print(f"| {name}{port} | {(m.get('summary') or '')[:110].replace('|','/')} | {(m.get('needs_to_manifest') or '')[:90].replace('|','/')} | {how} | {conc} |")
+print()
+print(f"{n_all} seeded changes: {n_caught} reported by the check of their property, {n_conc} of them with a concrete failing input.")
